@@ -29,6 +29,20 @@ class PB(Protocol):
     def mB(self): ...
 
 
+@runtime_checkable
+class PA2(Protocol):
+    """same method set as PA: the two protocols are subclasses of each other"""
+
+    def mA(self): ...
+
+
+@runtime_checkable
+class PLen(Protocol):
+    """structurally the same as collections.abc.Sized"""
+
+    def __len__(self): ...
+
+
 BUILTINS = {
     "object": object,
     "int": int,
@@ -55,6 +69,8 @@ BUILTINS = {
     "Hashable": collections.abc.Hashable,
     "PA": PA,
     "PB": PB,
+    "PA2": PA2,
+    "PLen": PLen,
 }
 
 
